@@ -491,6 +491,12 @@ fn c01_history() {
                 cover("settled_value");
                 check_bool("settled:last_accepted_write_is_readable_exactly", got.as_ref() == Some(v));
                 check_bool("settled:accepted_key_is_held", held && listed);
+                // what is durable must be the last accepted write too (reads after cache eviction / restart)
+                let on_disk = {
+                    let st = w.driver.node_store();
+                    NodeRecordStore::read_from_disk(&st.encryption_details, &k, &st.config.storage_dir).map(|c| c.into_owned().value)
+                };
+                check_bool("settled:file_holds_last_accepted_write", on_disk.as_ref() == Some(v));
             }
             Last::Removed => {
                 cover("settled_removed");
@@ -517,6 +523,10 @@ fn c02_crash() {
     let n_ops = env_usize("C02_OPS", 2);
     let mut w = World::new(100, 2);
     settle_labelled(&mut w);
+    // records right below the maximum accepted size must survive a restart like any other
+    let biggest = (0..n_keys).flat_map(|ki| (0..2).map(move |v| the_record(ki, v, ki == 1).value.len())).max().unwrap_or(0);
+    w.driver.node_store().config.max_value_bytes = biggest + 1;
+    let max_value_bytes = biggest + 1;
     let mut g = Ghost { accepted: vec![vec![]; n_keys], last: vec![Last::Never; n_keys], remove_raced_write: vec![false; n_keys], unacked_writes: vec![0; n_keys] };
     // ghost of what is durably on disk per key: Some(bytes) once a write task completed, None once a delete completed
     let mut durable: Vec<Last> = vec![Last::Never; n_keys];
@@ -596,8 +606,8 @@ fn c02_crash() {
     drop(w);
     env::reset_tasks();
     env::fs::restore(files);
-    // restart with the same identity (same encryption seed)
-    let mut w2 = World::new(100, 2);
+    // restart with the same identity (same encryption seed) and the same configuration
+    let mut w2 = World::new_with(100, 2, max_value_bytes);
     settle_labelled(&mut w2);
     cover("restarted");
     for ki in 0..n_keys {
